@@ -266,7 +266,7 @@ def oracle(c):
         ref, err = _probe('knotops', c.data['seed'], {})
         if ref is None:
             return "baseline scenario failed: %s" % err
-        for val in ('1', '16', '1024'):
+        for val in ('0', '1', '16', '1024'):
             got, err = _probe('knotops', c.data['seed'], {'GEOMDL_CACHE_SIZE': val})
             if got is None:
                 return "GEOMDL_CACHE_SIZE=%s makes the scenario fail: %s" % (val, err)
@@ -275,6 +275,9 @@ def oracle(c):
         r = json.loads(ref)
         if any(abs(a - b) > 1e-9 for pa, pb in zip(r['pts'], r['pts0']) for a, b in zip(pa, pb)):
             return "scenario sanity: knot operations moved the curve"
+        for name, first, again in r.get('regen', []):
+            if first != again:
+                return "%s returns another result after the caller adjusted its previous result in place (default cache size)" % name
         return None
     if c.kind == 'num-procs':
         ref, err = _probe(c.data['scenario'], c.data['seed'], {}, 1)
